@@ -5,13 +5,20 @@
 //	fmt <ctx> <value>
 //
 // value syntax:  (i N) (f BITS) (s xHEX) (b t|f) (u) (d) (x xHEX) (r xHEX) (a v*) (h (k v)*)
+//   op fmtx only (the extended model, lean/Pcore/Model/FormatX.lean; executed here exactly as fmt):
+//	             (v xVERSION)  SemVer      (w xRANGE xNORMALIZED)  SemVerRange      (y xURI)  URI      (n NANOSECONDS)  Timespan
+//	             (m SEC NSEC xTEXT)  Timestamp, TEXT = time.Format of Go's time package with the default layout (a parameter of the model)
+//	             (z v)  Sensitive      (t xSOURCE xNAME param*)  a Type: SOURCE is parsed here, (NAME, params) = (Name(), Parameters()) is
+//	             what the model formats (checked against the parsed type by the predicate type-decomposition)
+//	             (o xTYPENAME (k v)*)  an instance of an object type of the catalogue with that init hash
 // ctx syntax:    (kind xDIRECTIVE)   px.NewFormatContext(<default type of the value's kind>, NewFormat(directive), indentation)
 //
 //	             (self xDIRECTIVE)   px.NewFormatContext(v.PType(), NewFormat(directive), indentation)
 //	             (new  xDIRECTIVE)   px.New(c, String, v, directive)  — the String constructor
 //	             (map (KEY FMT)*)    px.NewFormatContext2(indentation, types.NewFormatMap({KEY => FMT …}), nil)
 //	FMT ::= (xDIRECTIVE SEP SEP2 CF)   SEP, SEP2 ::= - | xHEX     CF ::= - | ((KEY FMT)*)
-//	KEY ::= any scalar numeric int float str bool bin arr hash coll undef dflt regexp   (the parameterless types)
+//	KEY ::= any scalar numeric int float str bool bin arr hash coll undef dflt regexp object type  (the parameterless types)
+//	        | semver semverrange uri timespan timestamp sensitive   (op fmtx only)
 //
 // out: `text xHEX` | `reported <CODE>` | `fault` | `timeout`
 package c20
@@ -34,6 +41,7 @@ import (
 	"github.com/lyraproj/issue/issue"
 	"github.com/lyraproj/pcore/px"
 	"github.com/lyraproj/pcore/types"
+	"github.com/lyraproj/semver/semver"
 )
 
 func init() {
@@ -190,6 +198,14 @@ var documentedDoc = map[string]string{
 	"h": "hasp",
 	"u": letters, // Undef and Regexp never reject a letter: nothing is documented for them
 	"r": letters,
+	"v": "sp",
+	"w": "ps",
+	"y": "sp",
+	"t": "sp",
+	"o": "hasp",
+	"n": letters, // Timespan, Timestamp and Sensitive ignore the format altogether
+	"m": letters,
+	"z": letters,
 }
 
 var documentedMu sync.Mutex
@@ -273,11 +289,65 @@ func valOf(e sx.Sexp) px.Value {
 			es[i] = types.WrapHashEntry(valOf(kv.List[0]), valOf(kv.List[1]))
 		}
 		return types.WrapHash(es)
+	case "v":
+		return types.WrapSemVer(semver.MustParseVersion(a[0].MustStr()))
+	case "w":
+		return types.WrapSemVerRange(semver.MustParseVersionRange(a[0].MustStr()))
+	case "y":
+		return types.WrapURI2(a[0].MustStr())
+	case "n":
+		return types.WrapTimespan(time.Duration(a[0].MustInt()))
+	case "m":
+		return types.WrapTimestamp(time.Unix(a[0].MustInt(), a[1].MustInt()).UTC())
+	case "z":
+		return types.WrapSensitive(valOf(a[0]))
+	case "t":
+		return curCtx.ParseType(a[0].MustStr())
+	case "o":
+		ensureCatalogue(curCtx)
+		es := make([]*types.HashEntry, len(a)-1)
+		for i, kv := range a[1:] {
+			es[i] = types.WrapHashEntry(valOf(kv.List[0]), valOf(kv.List[1]))
+		}
+		return px.New(curCtx, curCtx.ParseType(a[0].MustStr()), types.WrapHash(es))
 	}
 	panic(fmt.Errorf("bad value %s", e))
 }
 
-func isContainerTag(t string) bool { return t == "a" || t == "h" }
+// the context of the op being executed (type sources and object instances are built inside it)
+var curCtx px.Context
+
+// the object types whose instances the ops format
+var catalogue = []string{
+	`Object[{name => 'Verif::Pair', attributes => {a => Any, b => Any}}]`,
+	`Object[{name => 'Verif::One', attributes => {v => Any}}]`,
+	`Object[{name => 'Verif::Unit'}]`,
+}
+
+func ensureCatalogue(c px.Context) {
+	if _, ok := px.Load(c, px.NewTypedName(px.NsType, "Verif::Pair")); ok {
+		return
+	}
+	ts := []px.Type{}
+	for _, t := range catalogue {
+		ts = append(ts, c.ParseType(t))
+	}
+	px.AddTypes(c, ts...)
+}
+
+// entriesOfValue: the (key value) pairs of a hash or of an object instance's init hash, as written in the op
+func entriesOfValue(e sx.Sexp) []sx.Sexp {
+	if e.Tag() == "o" {
+		return e.Args()[1:]
+	}
+	return e.Args()
+}
+
+// Array, Hash and object instances (isContainer in types/arraytype.go)
+func isContainerTag(t string) bool { return t == "a" || t == "h" || t == "o" }
+
+// the kinds of the extended model (op fmtx)
+func isNewTag(t string) bool { return strings.Contains("vwynmzto", t) }
 
 // ---- format nodes: the harness-side twin of a px.Format tree ------------------------------------------------------
 
@@ -302,6 +372,18 @@ func newNode(directive string) *node {
 }
 
 var keyNames = []string{"any", "scalar", "numeric", "int", "float", "str", "bool", "bin", "arr", "hash", "coll", "undef", "dflt", "regexp"}
+
+// the default types of the kinds of the extended model (op fmtx; "object" and "type" are among the 16 keys already)
+var newKeyNames = []string{"semver", "semverrange", "uri", "timespan", "timestamp", "sensitive"}
+
+func isNewKey(k string) bool {
+	for _, n := range newKeyNames {
+		if n == k {
+			return true
+		}
+	}
+	return false
+}
 
 // allKeyNames: with the two keys of DefaultFormats no generated value is an instance of (merged maps only)
 var allKeyNames = append(append([]string{}, keyNames...), "object", "type")
@@ -340,14 +422,27 @@ func keyType(k string) px.Type {
 		return types.DefaultObjectType()
 	case "type":
 		return types.DefaultTypeType()
+	case "semver":
+		return types.DefaultSemVerType()
+	case "semverrange":
+		return types.DefaultSemVerRangeType()
+	case "uri":
+		return types.DefaultUriType()
+	case "timespan":
+		return types.DefaultTimespanType()
+	case "timestamp":
+		return types.DefaultTimestampType()
+	case "sensitive":
+		return types.DefaultSensitiveType()
 	}
 	panic("bad key " + k)
 }
 
 // which value kinds a parameterless key type accepts (Go twin of the model's `Key.accepts`)
 var keyAccepts = map[string]string{
-	"any": "ifsbudxrah", "scalar": "ifsbr", "numeric": "if", "int": "i", "float": "f", "str": "s", "bool": "b",
-	"bin": "x", "arr": "a", "hash": "h", "coll": "ah", "undef": "u", "dflt": "d", "regexp": "r", "object": "", "type": "",
+	"any": "ifsbudxrahvwynmzto", "scalar": "ifsbrvnm", "numeric": "if", "int": "i", "float": "f", "str": "s", "bool": "b",
+	"bin": "x", "arr": "a", "hash": "h", "coll": "ah", "undef": "u", "dflt": "d", "regexp": "r", "object": "o", "type": "t",
+	"semver": "v", "semverrange": "w", "uri": "y", "timespan": "n", "timestamp": "m", "sensitive": "z",
 }
 
 func kindKey(tag string) string {
@@ -372,6 +467,22 @@ func kindKey(tag string) string {
 		return "arr"
 	case "h":
 		return "hash"
+	case "v":
+		return "semver"
+	case "w":
+		return "semverrange"
+	case "y":
+		return "uri"
+	case "n":
+		return "timespan"
+	case "m":
+		return "timestamp"
+	case "z":
+		return "sensitive"
+	case "t":
+		return "type"
+	case "o":
+		return "object"
 	}
 	panic("bad tag " + tag)
 }
@@ -390,8 +501,10 @@ func progNode(sep2 string, ld byte) *node {
 	return &node{d: parseDir("%p"), sep: ",", hasSep: true, sep2: sep2, hasSep2: sep2 != "", ld: ld}
 }
 
-// types.DefaultContainerFormats (Object and Type keys never match the values generated here)
+// types.DefaultContainerFormats
 var defaultCF = []entry{
+	{key: "object", n: progNode(" => ", '(')},
+	{key: "type", n: progNode(" => ", '(')},
 	{key: "float", n: progNode("", 0)},
 	{key: "numeric", n: progNode("", 0)},
 	{key: "arr", n: progNode(",", '[')},
@@ -538,7 +651,12 @@ func deadline(f func() string) string {
 				ch <- classify(e)
 			}
 		}()
-		ch <- f()
+		if curCtx != nil {
+			// the goroutine needs the op's context as its current one (object instances and some types ask for it)
+			px.DoWithContext(curCtx, func(px.Context) { ch <- f() })
+		} else {
+			ch <- f()
+		}
 	}()
 	select {
 	case r := <-ch:
@@ -866,9 +984,21 @@ func unpadded(d dir) string {
 // law (delimiters, separators, element formats, errors of the container letter first, then of the children in order),
 // scalars rendered by the implementation.  ok=false → not applicable (alt container format, hang/fault in a child)
 func expect(c px.Context, e sx.Sexp, v px.Value, m []entry, level int, entryMode bool) (string, bool) {
+	return expect2(c, e, v, m, level, entryMode, false)
+}
+
+// first: the value is rendered with an indentation whose IsFirst() holds (the key or value of a hash entry; an element of an
+// array gets Subsequent()) — it matters to a Type, whose parameter list breaks the line under an alt Array format unless first
+func expect2(c px.Context, e sx.Sexp, v px.Value, m []entry, level int, entryMode bool, first bool) (string, bool) {
 	tag := e.Tag()
 	if !isContainerTag(tag) && !entryMode {
-		out := renderMap(c, v, m, level)
+		out := deadline(func() string {
+			ind := indentAt(level)
+			if first {
+				ind = px.NewIndentation(false, level)
+			}
+			return textOut(px.ToString2(v, px.NewFormatContext2(ind, pxMap(m), nil)))
+		})
 		return out, out != "timeout" && out != "fault"
 	}
 	ltag := tag
@@ -887,11 +1017,12 @@ func expect(c px.Context, e sx.Sexp, v px.Value, m []entry, level int, entryMode
 	if n.hasSep {
 		sep = n.sep
 	}
+	childFirst := !(tag == "a" || entryMode)
 	child := func(ce sx.Sexp, cv px.Value) (string, bool) {
 		if isContainerTag(ce.Tag()) {
-			return expect(c, ce, cv, m, level+1, false)
+			return expect2(c, ce, cv, m, level+1, false, childFirst)
 		}
-		return expect(c, ce, cv, cf, level+1, false)
+		return expect2(c, ce, cv, cf, level+1, false, childFirst)
 	}
 	join := func(l, r string, parts []string) (string, bool) {
 		txt := make([]string, len(parts))
@@ -932,8 +1063,23 @@ func expect(c px.Context, e sx.Sexp, v px.Value, m []entry, level int, entryMode
 		}
 		return join(l, r, parts)
 	}
-	// hash
-	hv := v.(*types.Hash)
+	// hash, or the init hash of an object instance: the type name, then the hash between ( and ) whatever the format's delimiter
+	var hv *types.Hash
+	prefix := ""
+	if tag == "o" {
+		po := v.(px.PuppetObject)
+		hv = po.InitHash().(*types.Hash)
+		prefix = po.PType().Name()
+	} else {
+		hv = v.(*types.Hash)
+	}
+	withPrefix := func(s string, ok bool) (string, bool) {
+		if t, isT := isText(s); ok && isT {
+			return textOut(prefix + t), true
+		}
+		return s, ok
+	}
+	kvs := entriesOfValue(e)
 	if n.d.letter == 'a' {
 		// as an array of entries, under the same map
 		an := lookup(m, "a", types.WrapArray3(hv))
@@ -958,7 +1104,7 @@ func expect(c px.Context, e sx.Sexp, v px.Value, m []entry, level int, entryMode
 		idx := 0
 		hv.Each(func(x px.Value) {
 			if !stop && okAll {
-				s, ok := expect(c, e.Args()[idx], x, acf, level+1, true)
+				s, ok := expect(c, kvs[idx], x, acf, level+1, true)
 				okAll = okAll && ok
 				parts = append(parts, s)
 				if _, isT := isText(s); !isT {
@@ -970,12 +1116,15 @@ func expect(c px.Context, e sx.Sexp, v px.Value, m []entry, level int, entryMode
 		if !okAll {
 			return "", false
 		}
-		return join(l, r, parts)
+		return withPrefix(join(l, r, parts))
 	}
 	if strings.IndexByte("hsp", n.d.letter) < 0 {
 		return "reported " + unsupported, true
 	}
 	l, r := delimPair(n.ld, '{')
+	if tag == "o" {
+		l, r = "(", ")"
+	}
 	assoc := " => "
 	if n.hasSep2 {
 		assoc = n.sep2
@@ -986,7 +1135,7 @@ func expect(c px.Context, e sx.Sexp, v px.Value, m []entry, level int, entryMode
 	idx := 0
 	hv.EachPair(func(k, x px.Value) {
 		if !stop && okAll {
-			kve := e.Args()[idx]
+			kve := kvs[idx]
 			ks, ok1 := child(kve.List[0], k)
 			kt, isT1 := isText(ks)
 			if !ok1 {
@@ -1012,7 +1161,7 @@ func expect(c px.Context, e sx.Sexp, v px.Value, m []entry, level int, entryMode
 	if !okAll {
 		return "", false
 	}
-	return join(l, r, parts)
+	return withPrefix(join(l, r, parts))
 }
 
 func delimPair(ld, dflt byte) (string, string) {
@@ -1078,13 +1227,19 @@ func exec(c px.Context, op string, args []sx.Sexp) core.Result {
 		// px.IsAssignable on the key types of format maps (the relation mergeFormats sorts and rejects by)
 		return core.Result{Out: sx.B(px.IsAssignable(keyType(args[0].Atom), keyType(args[1].Atom))), Pred: "ok", Tags: []string{"op:keysub"}}
 	}
-	// fmtf = fmt with an oracle of fmt.Sprintf results for the Lean driver (ignored here)
-	if !((op == "fmt" && len(args) == 2) || (op == "fmtf" && len(args) == 4)) {
+	// fmtf = fmt with an oracle of fmt.Sprintf results for the Lean driver (ignored here); fmtx = fmt for the driver of the
+	// extended model (every value kind)
+	if !(((op == "fmt" || op == "fmtx") && len(args) == 2) || (op == "fmtf" && len(args) == 4)) {
 		return core.Result{Out: "bad-op", Pred: "FAIL harness-bad-op " + op}
 	}
+	curCtx = c
 	ve := args[1]
 	tag := ve.Tag()
 	v := valOf(ve)
+	if why := payloadMismatch(ve, v); why != "" {
+		// the texts / decompositions the op line carries for the model are not those of the value built from it
+		return core.Result{Out: "payload-mismatch", Pred: "FAIL payload-mismatch " + oneLine(why)}
+	}
 	fc := ctxOf(args[0], tag, v)
 	out := renderTop(c, fc, tag, v)
 
@@ -1151,6 +1306,21 @@ func exec(c px.Context, op string, args []sx.Sexp) core.Result {
 	inDoc := strings.IndexByte(docs, d.letter) >= 0
 	if !isT {
 		if out == "reported "+unsupported {
+			if inDoc && tag == "t" && len(ve.Args()) > 2 {
+				// the parameters of a Type are formatted as an Array under the same map: its letter is checked like any Array's
+				ps := ve.Args()[2:]
+				pv := make([]px.Value, len(ps))
+				for i, p := range ps {
+					pv[i] = valOf(p)
+				}
+				want, ok := expect(c, va(ps...), types.WrapValues(pv), fc.m, 0, false)
+				if !ok {
+					return res("n/a")
+				}
+				if want == out {
+					return res("ok")
+				}
+			}
 			if inDoc {
 				cls := "unsupported-mismatch"
 				if (d.letter == 'a' || d.letter == 'A') && strings.IndexByte("ifb", tag[0]) >= 0 {
@@ -1217,6 +1387,11 @@ func exec(c px.Context, op string, args []sx.Sexp) core.Result {
 		if tag == "u" || tag == "r" {
 			cls = "too-narrow-format-ignored"
 		}
+		if flagsIgnored(tag, d.letter) {
+			// SemVer / URI %p, SemVerRange, Timespan, Timestamp, Sensitive: the code never consults width, precision or `-`
+			// (known finding C20-width-ignored)
+			cls = "width-ignored"
+		}
 		return fail(cls, fmt.Sprintf("%s: %d runes, width %d requested: %q", d.raw, utf8.RuneCountInString(text), d.width, text))
 	}
 	if d.width >= 0 && tag != "u" && tag != "r" && fc.mode != "map" {
@@ -1231,6 +1406,153 @@ func exec(c px.Context, op string, args []sx.Sexp) core.Result {
 	}
 	return res("ok")
 }
+
+// flagsIgnored: the arm of the kind's ToString that formats this letter never calls ApplyStringFlags
+func flagsIgnored(tag string, letter byte) bool {
+	switch tag {
+	case "v", "y":
+		return letter == 'p'
+	case "w", "n", "m", "z":
+		return true
+	}
+	return false
+}
+
+// payloadMismatch: what the op line tells the MODEL about a value (the text of a SemVer / SemVerRange / URI / Timestamp, the
+// name and parameters of a Type, the init hash of an object) against the value the implementation side built from the line
+func payloadMismatch(e sx.Sexp, v px.Value) string {
+	a := e.Args()
+	switch e.Tag() {
+	case "v":
+		if got := v.(*types.SemVer).Version().String(); got != a[0].MustStr() {
+			return fmt.Sprintf("SemVer %q has the text %q", a[0].MustStr(), got)
+		}
+	case "w":
+		vr := v.(*types.SemVerRange).VersionRange()
+		if vr.String() != a[0].MustStr() || vr.NormalizedString() != a[1].MustStr() {
+			return fmt.Sprintf("SemVerRange %q/%q has the texts %q/%q", a[0].MustStr(), a[1].MustStr(), vr.String(), vr.NormalizedString())
+		}
+	case "y":
+		if got := v.(*types.UriValue).URL().String(); got != a[0].MustStr() {
+			return fmt.Sprintf("URI %q has the text %q", a[0].MustStr(), got)
+		}
+	case "m":
+		if got := time.Unix(a[0].MustInt(), a[1].MustInt()).UTC().Format(timestampLayout); got != a[2].MustStr() {
+			return fmt.Sprintf("Timestamp %d.%d: time.Format gives %q, the op says %q", a[0].MustInt(), a[1].MustInt(), got, a[2].MustStr())
+		}
+	case "z":
+		return payloadMismatch(a[0], v.(*types.Sensitive).Unwrap())
+	case "t":
+		t := v.(px.Type)
+		if t.Name() != a[1].MustStr() {
+			return fmt.Sprintf("type %s has the name %q, the op says %q", a[0].MustStr(), t.Name(), a[1].MustStr())
+		}
+		var ps []px.Value
+		if pt, ok := t.(px.ParameterizedType); ok {
+			ps = pt.Parameters()
+		}
+		if len(ps) != len(a)-2 {
+			return fmt.Sprintf("type %s has %d parameters, the op says %d", a[0].MustStr(), len(ps), len(a)-2)
+		}
+		for i, p := range ps {
+			w := valOf(a[i+2])
+			if !sameValue(p, w) {
+				return fmt.Sprintf("type %s: parameter %d is %s, the op says %s", a[0].MustStr(), i, p.String(), w.String())
+			}
+			if why := payloadMismatch(a[i+2], p); why != "" {
+				return why
+			}
+		}
+	case "o":
+		po := v.(px.PuppetObject)
+		ih := po.InitHash().(*types.Hash)
+		if po.PType().Name() != a[0].MustStr() || ih.Len() != len(a)-1 {
+			return fmt.Sprintf("object %s: name %q, %d init entries", a[0].MustStr(), po.PType().Name(), ih.Len())
+		}
+		why := ""
+		idx := 0
+		ih.EachPair(func(k, x px.Value) {
+			kv := a[idx+1]
+			idx++
+			if why == "" && (!sameValue(k, valOf(kv.List[0])) || !sameValue(x, valOf(kv.List[1]))) {
+				why = fmt.Sprintf("object %s: init entry %d is %s => %s", a[0].MustStr(), idx-1, k.String(), x.String())
+			}
+			if why == "" {
+				why = payloadMismatch(kv.List[1], x)
+			}
+		})
+		return why
+	case "a":
+		i := 0
+		why := ""
+		v.(*types.Array).Each(func(x px.Value) {
+			if why == "" {
+				why = payloadMismatch(a[i], x)
+			}
+			i++
+		})
+		return why
+	case "h":
+		i := 0
+		why := ""
+		v.(*types.Hash).EachPair(func(k, x px.Value) {
+			if why == "" {
+				why = payloadMismatch(a[i].List[0], k)
+			}
+			if why == "" {
+				why = payloadMismatch(a[i].List[1], x)
+			}
+			i++
+		})
+		return why
+	}
+	return ""
+}
+
+// sameValue: equality of the values the ops build, looking inside Sensitive (which never equals anything) and object instances
+func sameValue(x, y px.Value) bool {
+	switch a := x.(type) {
+	case *types.Sensitive:
+		b, ok := y.(*types.Sensitive)
+		return ok && sameValue(a.Unwrap(), b.Unwrap())
+	case *types.Array:
+		b, ok := y.(*types.Array)
+		if !ok || a.Len() != b.Len() {
+			return false
+		}
+		for i := 0; i < a.Len(); i++ {
+			if !sameValue(a.At(i), b.At(i)) {
+				return false
+			}
+		}
+		return true
+	case *types.Hash:
+		b, ok := y.(*types.Hash)
+		if !ok || a.Len() != b.Len() {
+			return false
+		}
+		same := true
+		i := 0
+		a.EachPair(func(k, v px.Value) {
+			e := b.At(i).(*types.HashEntry)
+			same = same && sameValue(k, e.Key()) && sameValue(v, e.Value())
+			i++
+		})
+		return same
+	case px.Type:
+		return a.Equals(y, nil)
+	case px.Float:
+		b, ok := y.(px.Float)
+		return ok && math.Float64bits(a.Float()) == math.Float64bits(b.Float())
+	case px.PuppetObject:
+		b, ok := y.(px.PuppetObject)
+		return ok && a.PType().Name() == b.PType().Name() && sameValue(a.InitHash().(*types.Hash), b.InitHash().(*types.Hash))
+	}
+	return x.Equals(y, nil)
+}
+
+// the layout of DefaultTimestampFormats[0] (`%FT%T.%N %Z`) in the notation of Go's time package
+const timestampLayout = "2006-01-02T15:04:05.000000000 MST"
 
 // hasNonFinite: a NaN or an infinity somewhere in the value
 func hasNonFinite(e sx.Sexp) bool {
